@@ -31,6 +31,8 @@ type pathCand struct {
 	PtrAt   int            // len of the first prefix that ends at a pointer which the path continues through (-1: none); 0 = the root value
 	MapAt   int            // len of the first prefix that ends at a map in which the path looks up a key (-1: none); 0 = the root value
 	Nested  bool           // passes through a pointer to pointer
+	EmbPtrs [][]string     // the embedded pointers behind which a promoted field of the path lies: their own paths, spelled through the embedded fields
+	HidEmb  bool           // one of them has an unexported type: it cannot be set from outside the package
 	// target side
 	StructEntry string // joined prefix that ends at an entry of a map with struct (non-pointer) elements below which the path continues
 	Shape       string // container kinds along the path: S struct field, M map key, A any hole, P pointer deref
@@ -88,9 +90,28 @@ func enumPaths(t reflect.Type, source bool, maxDepth int) []pathCand {
 		}
 		switch {
 		case t.Kind() == reflect.Struct:
-			for i := 0; i < t.NumField(); i++ {
-				f := t.Field(i)
-				emit(f.Name, f.Type, "S", cur)
+			// direct fields and the fields promoted from embedded structs (E), each under its own name
+			for _, f := range reflect.VisibleFields(t) {
+				if !f.IsExported() {
+					continue
+				}
+				if len(f.Index) == 1 {
+					emit(f.Name, f.Type, "S", cur)
+					continue
+				}
+				c := cur
+				chain, _ := fieldChain(t, f.Name)
+				at := clonePath(cur.Path)
+				for _, ef := range chain[:len(chain)-1] {
+					at = append(at, ef.Name)
+					if ef.Type.Kind() == reflect.Ptr {
+						c.EmbPtrs = append(append([][]string(nil), c.EmbPtrs...), clonePath(at))
+						if !ef.IsExported() {
+							c.HidEmb = true
+						}
+					}
+				}
+				emit(f.Name, f.Type, "E", c)
 			}
 		case t.Kind() == reflect.Map && t.Key().Kind() == reflect.String:
 			c := cur
@@ -200,7 +221,88 @@ type Case struct {
 	Hazard   string // the single hostile element put on a used path ("" none)
 	Struct   string // structural feature of the mapping set that is known to be delicate ("" none)
 	Seed     string // input of START when START is not a typed predecessor
+	Gate     *gate  // some lambda predecessors only run when a branch selects them (nil: all run)
+	SuccInv  bool   // the successor lambda has the Invoke form only (streaming runs need one assembled value)
 	invokeOK bool   // the Invoke runs of the workflow under test did not fail (set while running)
+}
+
+// gate: a node "gate" below START carries a branch whose end nodes are the gated lambda
+// predecessors (and, CtlKind 0, a control-only node "ctl"); the predecessors it does not
+// select are skipped. The successor still runs because one control predecessor finishes.
+type gate struct {
+	Gated    []bool // per predecessor: runs only when selected
+	Picked   []bool // per predecessor: selected
+	Form     int    // see mkGate
+	CtlKind  int    // the control predecessor of the successor that always finishes: 0 node "ctl" selected by the same branch, 1 node "ctl" below START, 2 START itself, 3 the gate node
+	CtlData  bool   // ctl takes the gate's / START's output as data (else it only has the control dependency)
+	PredFrom int    // gated predecessors take their input from 0: the gate node, 1: START (both without direct dependency)
+}
+
+// skipped: predecessor pi does not run.
+func (c *Case) skipped(pi int) bool {
+	return c.Gate != nil && c.Gate.Gated[pi] && !c.Gate.Picked[pi]
+}
+
+// skipClass: "" when every predecessor runs, else how many of the data predecessors are skipped.
+func (c *Case) skipClass() string {
+	n := 0
+	for i := range c.Preds {
+		if c.skipped(i) {
+			n++
+		}
+	}
+	switch {
+	case n == 0:
+		return ""
+	case n == len(c.Preds):
+		return "all-mapped-predecessors-skipped-by-a-branch"
+	}
+	return "some-mapped-predecessors-skipped-by-a-branch"
+}
+
+func (c *Case) genGate(r *mon.Rand) {
+	var lambdas []int
+	for i, p := range c.Preds {
+		if !p.Start {
+			lambdas = append(lambdas, i)
+		}
+	}
+	if len(lambdas) == 0 {
+		return
+	}
+	g := &gate{Gated: make([]bool, len(c.Preds)), Picked: make([]bool, len(c.Preds))}
+	for _, i := range lambdas {
+		g.Gated[i] = r.Prob(0.75)
+	}
+	g.Gated[lambdas[r.Intn(len(lambdas))]] = true
+	allSkipped := r.Prob(0.5)
+	npicked := 0
+	for _, i := range lambdas {
+		if g.Gated[i] && !allSkipped && r.Prob(0.4) {
+			g.Picked[i] = true
+			npicked++
+		}
+	}
+	g.CtlKind = r.Intn(4)
+	if g.CtlKind == 2 && c.startPred() != nil {
+		g.CtlKind = 1
+	}
+	if g.CtlKind != 0 && npicked == 0 {
+		// a branch has to select something: only "ctl" remains
+		g.CtlKind = 0
+	}
+	sel := npicked
+	if g.CtlKind == 0 {
+		sel++
+	}
+	if sel == 1 {
+		g.Form = r.Intn(4)
+	} else {
+		g.Form = r.Intn(2)
+	}
+	g.CtlData = r.Bool()
+	g.PredFrom = r.Intn(2)
+	c.Gate = g
 }
 
 func (c *Case) startPred() *pred {
@@ -286,7 +388,7 @@ func (c *Case) computeOverlap() bool {
 	ts := c.targets()
 	for i := range ts {
 		for j := i + 1; j < len(ts); j++ {
-			if overlaps(ts[i].Path, ts[j].Path) {
+			if overlapsIn(c.Tgt, ts[i].Path, ts[j].Path) {
 				return true
 			}
 		}
@@ -320,7 +422,7 @@ func genValue(r *mon.Rand, t reflect.Type, depth int) reflect.Value {
 		v.Set(p)
 	case reflect.Struct:
 		for i := 0; i < t.NumField(); i++ {
-			v.Field(i).Set(genValue(r, t.Field(i).Type, depth+1))
+			setRO(v.Field(i), genValue(r, t.Field(i).Type, depth+1))
 		}
 	case reflect.Map:
 		m := reflect.MakeMap(t)
@@ -392,7 +494,11 @@ func deleteKey(root reflect.Value, path []string) bool {
 			if last {
 				return false
 			}
-			cur = cur.FieldByName(el)
+			f, found, nilEmb := getField(cur, el)
+			if !found || nilEmb {
+				return false
+			}
+			cur = f
 		case reflect.Map:
 			if last {
 				cur.SetMapIndex(reflect.ValueOf(el), reflect.Value{})
@@ -463,15 +569,18 @@ func placed(cur reflect.Value, path []string, val any) (reflect.Value, error) {
 	case reflect.Struct:
 		cp := reflect.New(t).Elem()
 		cp.Set(cur)
-		f := cp.FieldByName(path[0])
-		if !f.IsValid() {
+		f, found, nilEmb := getField(cp, path[0])
+		if !found {
 			return cur, fmt.Errorf("no field %s in %v", path[0], t)
+		}
+		if nilEmb {
+			return cur, fmt.Errorf("nil embedded pointer before %s", path[0])
 		}
 		inner, err := placed(f, path[1:], val)
 		if err != nil {
 			return cur, err
 		}
-		f.Set(inner)
+		setRO(f, inner)
 		return cp, nil
 	case reflect.Map:
 		if t.Key().Kind() != reflect.String || cur.IsNil() {
@@ -498,12 +607,12 @@ func placed(cur reflect.Value, path []string, val any) (reflect.Value, error) {
 // when a path continues below it.
 func dynUniverse(it reflect.Type) []reflect.Type {
 	if it == tShape {
-		return []reflect.Type{tLeaf, tPLeaf, tPMid}
+		return []reflect.Type{tLeaf, tPLeaf, tPMid, tPEmbP}
 	}
-	return []reflect.Type{tLeaf, tPLeaf, tMid, tPMid, tTop, tPTop, tMapAny, tMapStr, tMapL, tMapPL, tMapM, tMapPM}
+	return []reflect.Type{tLeaf, tPLeaf, tMid, tPMid, tTop, tPTop, tMapAny, tMapStr, tMapL, tMapPL, tMapM, tMapPM, tEmbP, tPEmbP, tEmbD, tEmbV, tEmbH}
 }
 
-var shapeImpls = []reflect.Type{tLeaf, tPLeaf, tPMid}
+var shapeImpls = []reflect.Type{tLeaf, tPLeaf, tPMid, tPEmbP}
 
 func walkable(t reflect.Type) bool {
 	if t.Kind() == reflect.Ptr {
@@ -530,6 +639,11 @@ func composeDyn(base pathCand, d reflect.Type, sub pathCand) pathCand {
 	c.IfaceTs = append(append([]reflect.Type(nil), base.IfaceTs...), base.Leaf)
 	c.Roles = append(append([]roleReq(nil), base.Roles...), roleReq{At: clonePath(base.Path), Typ: d})
 	c.Shape = base.Shape + "I" + sub.Shape
+	c.EmbPtrs = append([][]string(nil), base.EmbPtrs...)
+	for _, ep := range sub.EmbPtrs {
+		c.EmbPtrs = append(c.EmbPtrs, clonePath(base.Path, ep...))
+	}
+	c.HidEmb = base.HidEmb || sub.HidEmb
 	if c.PtrAt < 0 && sub.PtrAt > 0 {
 		c.PtrAt = n + sub.PtrAt
 	}
@@ -568,9 +682,12 @@ func genCase(r *mon.Rand) *Case {
 func tryGenCase(r *mon.Rand) *Case {
 	c := &Case{Seed: r.Str(2, 4)}
 	// successor type: containers most of the time
-	if r.Prob(0.06) {
+	switch {
+	case r.Prob(0.06):
 		c.Tgt = tString
-	} else {
+	case r.Prob(0.2):
+		c.Tgt = embTypes[r.Intn(len(embTypes))]
+	default:
 		c.Tgt = tgtTypes[r.Intn(len(tgtTypes)-1)]
 	}
 	c.SuccEnd = r.Bool()
@@ -580,6 +697,8 @@ func tryGenCase(r *mon.Rand) *Case {
 		p := &pred{Key: fmt.Sprintf("p%d", i)}
 		if r.Prob(0.12) {
 			p.Type = mon.PickOne(r, []reflect.Type{tString, tInt, tLeaf, tPLeaf, tMapStr})
+		} else if r.Prob(0.2) {
+			p.Type = embTypes[r.Intn(len(embTypes))]
 		} else {
 			p.Type = srcTypes[r.Intn(len(srcTypes)-2)]
 		}
@@ -762,7 +881,7 @@ func tryGenCase(r *mon.Rand) *Case {
 	}
 	conflictsWithChosen := func(p []string) bool {
 		for _, t := range c.targets() {
-			if overlaps(t.Path, p) {
+			if overlapsIn(c.Tgt, t.Path, p) {
 				return true
 			}
 		}
@@ -786,8 +905,10 @@ func tryGenCase(r *mon.Rand) *Case {
 		return true
 	}
 
-	if c.Tgt == tString {
-		// only whole-target mappings make sense
+	// the whole successor input taken from one position of a predecessor output (FromField / FromFieldPath)
+	// as the only mapping: all that makes sense for a string, now and then for every other type
+	wholeOnly := c.Tgt == tString || r.Prob(0.07)
+	if wholeOnly {
 		if !addMapping(pathCand{}, true) {
 			return nil
 		}
@@ -818,7 +939,7 @@ func tryGenCase(r *mon.Rand) *Case {
 			for i := 0; i < ns; i++ {
 				for try := 0; try < 20; try++ {
 					tc := tcs[r.Intn(len(tcs))]
-					if conflictsWithChosen(tc.Path) || tc.Nested {
+					if conflictsWithChosen(tc.Path) || tc.Nested || tc.HidEmb {
 						continue
 					}
 					c.Statics = append(c.Statics, staticVal{To: tc.Path, Val: genTyped(r, tc.Leaf), tgt: tc})
@@ -900,6 +1021,20 @@ func tryGenCase(r *mon.Rand) *Case {
 		if c.computeOverlap() {
 			return nil
 		}
+	}
+	if !c.Overlap && c.Ill == "" {
+		for _, m := range c.Maps {
+			if m.tgt.HidEmb {
+				// nobody outside the package can allocate the embedded pointer: Compile should refuse the path
+				c.Ill = "target-field-promoted-through-unexported-embedded-pointer"
+			}
+		}
+	}
+	if !c.Overlap && c.Ill == "" && r.Prob(0.3) {
+		c.genGate(r)
+	}
+	if !c.SuccEnd && !c.Overlap && r.Prob(0.2) {
+		c.SuccInv = true
 	}
 	genValues(r, c, roles)
 	return c
@@ -986,7 +1121,7 @@ func injectOverlap(r *mon.Rand, c *Case, tcs []pathCand, addMapping func(tc path
 		base := c.Maps[r.Intn(len(c.Maps))].To
 		var cands []pathCand
 		for _, tc := range tcs {
-			if overlaps(tc.Path, base) && !tc.Nested {
+			if overlapsIn(c.Tgt, tc.Path, base) && !tc.Nested && !tc.HidEmb {
 				cands = append(cands, tc)
 			}
 		}
@@ -1005,10 +1140,18 @@ func injectOverlap(r *mon.Rand, c *Case, tcs []pathCand, addMapping func(tc path
 		// a mapping whose target equals / is a prefix of / extends an existing target
 		base := c.Maps[r.Intn(len(c.Maps))].To
 		var cands []pathCand
+		var alias []pathCand
 		for _, tc := range tcs {
-			if overlaps(tc.Path, base) {
+			if overlapsIn(c.Tgt, tc.Path, base) {
 				cands = append(cands, tc)
+				if !overlaps(tc.Path, base) {
+					alias = append(alias, tc)
+				}
 			}
+		}
+		if len(alias) > 0 && r.Prob(0.5) {
+			// the same position spelled differently (promoted field name / through the embedded field)
+			cands = alias
 		}
 		for try := 0; try < 12 && len(cands) > 0; try++ {
 			if addMapping(cands[r.Intn(len(cands))], false) {
@@ -1160,8 +1303,12 @@ func genValues(r *mon.Rand, c *Case, roles map[string]reflect.Type) {
 			}
 			full := clonePath(pr.path, sub.Path...)
 			onUsed := false
+			cf := canonInValue(roots[pr.pi], full)
 			for _, m := range c.Maps {
-				if m.Pred == pr.pi && (isPrefix(full, m.From) || isPrefix(m.From, full)) {
+				if m.Pred != pr.pi {
+					continue
+				}
+				if cm := canonInValue(roots[pr.pi], m.From); isPrefix(cf, cm) || isPrefix(cm, cf) {
 					onUsed = true
 				}
 			}
@@ -1192,9 +1339,10 @@ func genValues(r *mon.Rand, c *Case, roles map[string]reflect.Type) {
 				continue
 			}
 			strict, equal := false, false
+			cs := canonPath(p.Type, sc.Path)
 			for _, u := range usedPaths {
-				if isPrefix(sc.Path, u) {
-					if len(sc.Path) < len(u) {
+				if cu := canonPath(p.Type, u); isPrefix(cs, cu) {
+					if len(cs) < len(cu) {
 						strict = true
 					} else {
 						equal = true
@@ -1374,6 +1522,14 @@ func injectHazard(r *mon.Rand, c *Case, roots []reflect.Value) {
 		if sc.PtrAt >= 0 && sc.PtrAt < len(sc.Path) {
 			opts = append(opts, set(sc.Path[:sc.PtrAt], nil, "nil-pointer-on-source-path"))
 		}
+		// an embedded pointer behind which a promoted field of the path lies is nil in this output
+		for _, ep := range sc.EmbPtrs {
+			opts = append(opts, set(ep, nil, "nil-embedded-pointer-on-source-path"), set(ep, nil, "nil-embedded-pointer-on-source-path"))
+		}
+		if len(m.To) == 0 && sc.Leaf.Kind() == reflect.Interface && len(sc.Path) > 0 {
+			// the whole successor input is taken from an interface-typed position that holds nil
+			opts = append(opts, set(sc.Path, nil, "nil-interface-value-for-whole-input"), set(sc.Path, nil, "nil-interface-value-for-whole-input"))
+		}
 		if sc.MapAt >= 0 && sc.MapAt < len(sc.Path) {
 			at := sc.Path[:sc.MapAt+1]
 			opts = append(opts, func() string {
@@ -1444,6 +1600,9 @@ func chunkings(r *mon.Rand, p *pred) [][]any {
 		v = v.Elem()
 		t = t.Elem()
 	}
+	if t.Kind() == reflect.Struct {
+		v = addressableCopy(v)
+	}
 	for n := 0; n < 2; n++ {
 		parts := r.Range(2, 3)
 		var chunks []reflect.Value
@@ -1453,7 +1612,7 @@ func chunkings(r *mon.Rand, p *pred) [][]any {
 				chunks = append(chunks, reflect.New(t).Elem())
 			}
 			for i := 0; i < t.NumField(); i++ {
-				chunks[r.Intn(parts)].Field(i).Set(v.Field(i))
+				setRO(chunks[r.Intn(parts)].Field(i), readable(v.Field(i)))
 			}
 		case reflect.Map:
 			if v.IsNil() {
@@ -1502,6 +1661,7 @@ type witness struct {
 	Ill       string   `json:"path_outside_the_declared_types,omitempty"`
 	Values    []string `json:"predecessor_outputs"`
 	Order     string   `json:"declaration_order,omitempty"`
+	Gate      string   `json:"branch_skipping_predecessors,omitempty"`
 	Extra     string   `json:"extra,omitempty"`
 }
 
@@ -1521,6 +1681,23 @@ func (c *Case) witness(order string, extra string) witness {
 	w.Successor = "lambda"
 	if c.SuccEnd {
 		w.Successor = "END"
+	}
+	if c.SuccInv {
+		w.Successor = "lambda (Invoke form only)"
+	}
+	if g := c.Gate; g != nil {
+		var gs, ps []string
+		for i, p := range c.Preds {
+			if g.Gated[i] {
+				gs = append(gs, p.Key)
+				if g.Picked[i] {
+					ps = append(ps, p.Key)
+				}
+			}
+		}
+		w.Gate = fmt.Sprintf("branch (form %d) below node gate over {%s}%s selects {%s}%s; gated predecessors take their input from %s; the successor's finishing control predecessor: %s",
+			g.Form, strings.Join(gs, ","), map[bool]string{true: "+ctl", false: ""}[g.CtlKind == 0], strings.Join(ps, ","), map[bool]string{true: "+ctl", false: ""}[g.CtlKind == 0],
+			[]string{"gate", "START"}[g.PredFrom], []string{"ctl (selected by the branch)", "ctl (below START)", "START", "gate"}[g.CtlKind])
 	}
 	for _, p := range c.Preds {
 		s := p.Key + ":" + typeName(p.Type)
@@ -1543,7 +1720,10 @@ func (c *Case) witness(order string, extra string) witness {
 // digest identifies the shape of a case (types, mapping set, statics), not its values.
 func (c *Case) digest() string {
 	var b strings.Builder
-	fmt.Fprintf(&b, "%v|%v|", c.Tgt, c.SuccEnd)
+	fmt.Fprintf(&b, "%v|%v|%v|", c.Tgt, c.SuccEnd, c.SuccInv)
+	if g := c.Gate; g != nil {
+		fmt.Fprintf(&b, "gate%v%v%d%d|", g.Gated, g.Picked, g.Form, g.CtlKind)
+	}
 	for _, p := range c.Preds {
 		fmt.Fprintf(&b, "%v,%v,%v,%d;", p.Type, p.Start, p.Whole, p.Mode)
 	}
@@ -1554,4 +1734,48 @@ func (c *Case) digest() string {
 		b.WriteString("static " + joinPath(s.To) + ";")
 	}
 	return b.String()
+}
+
+// canonInValue spells a path inside the value v with every promoted field name written out
+// through its embedded fields, following the dynamic types actually held (interfaces and
+// pointers are looked through); the rest of the path is kept as it is where the walk ends.
+func canonInValue(v reflect.Value, path []string) []string {
+	out := make([]string, 0, len(path)+2)
+	cur := v
+	for i, el := range path {
+		for cur.IsValid() && (cur.Kind() == reflect.Ptr || cur.Kind() == reflect.Interface) {
+			if cur.IsNil() {
+				cur = reflect.Value{}
+				break
+			}
+			cur = cur.Elem()
+		}
+		if !cur.IsValid() {
+			return append(out, path[i:]...)
+		}
+		switch cur.Kind() {
+		case reflect.Struct:
+			chain, ok := fieldChain(cur.Type(), el)
+			if !ok {
+				return append(out, path[i:]...)
+			}
+			for _, sf := range chain {
+				out = append(out, sf.Name)
+			}
+			f, _, nilEmb := getField(cur, el)
+			if nilEmb {
+				return append(out, path[i+1:]...)
+			}
+			cur = f
+		case reflect.Map:
+			out = append(out, el)
+			if cur.Type().Key().Kind() != reflect.String {
+				return append(out, path[i+1:]...)
+			}
+			cur = cur.MapIndex(reflect.ValueOf(el).Convert(cur.Type().Key()))
+		default:
+			return append(out, path[i:]...)
+		}
+	}
+	return out
 }
